@@ -58,8 +58,8 @@ func runC20(c *core.Ctx) {
 	drive.Quiet()
 	drive.PresetEnv(10)
 	var pool []c20Pair
-	for len(pool) < c20Pool {
-		cfg := variantCfg(len(pool)%4, c.Tier)
+	for np := 0; len(pool) < c20Pool; np++ {
+		cfg := variantCfg(np%4, c.Tier) // plain, with spec-level --, with env-backed options, with both
 		p := gen.GenProg(c.R, cfg)
 		if len(pool)%5 == 4 {
 			p = gen.TinyProg(c.R) // identical spec strings with different meanings within one pool
@@ -192,6 +192,45 @@ func runC20(c *core.Ctx) {
 			}
 		}
 	}
+	// (h) the environment counts at declaration time only: an application declared while its variables are unset and run
+	// after they were exported behaves like one that never saw them, and the other way round
+	{
+		var envPairs []c20Pair
+		for _, pr := range pool {
+			for _, o := range pr.p.Opts {
+				if o.EnvSet && pr.exit == 0 {
+					envPairs = append(envPairs, pr)
+					break
+				}
+			}
+		}
+		for k := 0; k < 30 && len(envPairs) > 0; k++ {
+			pr := envPairs[c.R.Intn(len(envPairs))]
+			drive.UnsetPresetEnv(10)
+			unsetSolo := run(pr)
+			b := drive.Build(mkApp(pr))
+			drive.PresetEnv(10)
+			late := drive.OutcomeKey(pr.p, b.Run(pr.argv))
+			b2 := drive.Build(mkApp(pr))
+			drive.UnsetPresetEnv(10)
+			early := drive.OutcomeKey(pr.p, b2.Run(pr.argv))
+			drive.PresetEnv(10)
+			c.Eval()
+			c.Eval()
+			if late != unsetSolo {
+				c.Violation("an application declared while its environment variables were unset changed its outcome because they were exported before Run", map[string]interface{}{"spec": pr.p.Spec, "decl": DeclStr(pr.p), "argv": pr.argv, "never_set": unsetSolo, "set_after_declaration": late}, nil)
+				return
+			}
+			if early != pr.solo {
+				c.Violation("an application declared with its environment variables set changed its outcome because they were removed before Run", map[string]interface{}{"spec": pr.p.Spec, "decl": DeclStr(pr.p), "argv": pr.argv, "set_throughout": pr.solo, "unset_after_declaration": early}, nil)
+				return
+			}
+			c.Inc("environment_changed_after_declaration_equal")
+			if unsetSolo != pr.solo {
+				c.Inc("environment_changed_after_declaration_where_it_matters")
+			}
+		}
+	}
 	// (e) nested and cooperating applications: an Action that builds and runs another application, and two applications
 	// run concurrently whose Actions meet over an unbuffered channel, must both complete (no library-wide lock is held
 	// while user code runs)
@@ -213,12 +252,68 @@ func runC20(c *core.Ctx) {
 		case <-time.After(20 * time.Second): // generous: the operations take microseconds
 			buf := make([]byte, 1<<20)
 			stacks := string(buf[:runtime.Stack(buf, true)])
-			if strings.Contains(stacks, "sync.(*Mutex).Lock") && strings.Contains(stacks, "github.com/jawher/mow.cli") {
-				c.Abort(what + ": blocked on a lock inside the library (goroutine dump shows sync.(*Mutex).Lock under github.com/jawher/mow.cli)")
+			if where := core.BlockedInLibrary(stacks); where != "" {
+				c.Abort(what + ": blocked on a lock inside the library (" + where + ")")
 			} else {
 				c.Inc("cooperation_timeout_unexplained")
 			}
 			return false
+		}
+	}
+	// (i) an application that ends badly (its help lists a sub-command whose spec is ill-formed: Run panics, the caller
+	// recovers; an Action that panics; an Action that exits) leaves nothing behind: whatever runs next, accepted or
+	// rejected (a rejection prints a usage message), completes with its solo outcome
+	for k := 0; k < 8; k++ {
+		var bad *drive.App
+		what := ""
+		switch k % 4 {
+		case 0, 1:
+			root := &drive.Cmd{Aliases: []string{"app"}, Prog: &Prog{}}
+			kid := &drive.Cmd{ID: 1, Aliases: []string{"broken"}, Prog: &Prog{Spec: []string{"[", "X", "-z", "(", "[-a", "A|"}[c.R.Intn(6)]}, Parent: root, Action: drive.Beh{Kind: drive.BehReturn}}
+			root.Kids = []*drive.Cmd{kid}
+			bad = &drive.App{Root: root, Shared: true}
+			what = "an application whose help lists a sub-command with an ill-formed spec"
+		case 2:
+			bad = drive.Single(&Prog{})
+			bad.Shared = true
+			bad.Root.Action = drive.Beh{Kind: drive.BehPanic, PanKind: 1 + c.R.Intn(3)}
+			what = "an application whose Action panics"
+		default:
+			bad = drive.Single(&Prog{})
+			bad.Shared = true
+			bad.Root.Action = drive.Beh{Kind: drive.BehExit, Code: 3}
+			bad.Root.After = drive.Beh{Kind: drive.BehPanic, PanKind: 3}
+			what = "an application whose Action exits and whose After panics"
+		}
+		badArgv := []string{}
+		if k%4 == 0 {
+			badArgv = []string{"--help"}
+		}
+		var ob *drive.Obs
+		done := make(chan struct{})
+		go func() { defer close(done); ob = drive.Run(bad, badArgv) }()
+		if !waitOr(what, done) {
+			return
+		}
+		c.Eval()
+		if k%4 <= 1 && ob.SpecErr == nil {
+			c.Violation(what+" did not end with a spec error raised as a panic", map[string]interface{}{"events": ob.EventStr(), "panic": fmt.Sprint(ob.Pan), "err": fmt.Sprint(ob.Err)}, nil)
+			return
+		}
+		for n := 0; n < 4; n++ {
+			pr := pool[c.R.Intn(len(pool))]
+			got := ""
+			done := make(chan struct{})
+			go func() { defer close(done); got = run(pr) }()
+			if !waitOr("an application run after "+what, done) {
+				return
+			}
+			c.Eval()
+			if got != pr.solo {
+				c.Violation("an application run after "+what+" differs from its solo outcome", map[string]interface{}{"spec": pr.p.Spec, "decl": DeclStr(pr.p), "argv": pr.argv, "solo": pr.solo, "after": got}, nil)
+				return
+			}
+			c.Inc("after_a_badly_ended_application_equal")
 		}
 	}
 	for k := 0; k < 6 && len(accepted) >= 2; k++ {
@@ -263,6 +358,27 @@ func runC20(c *core.Ctx) {
 	var inflight, maxInflight, overlapped, runs int64
 	var mu sync.Mutex
 	var diffs []map[string]interface{}
+	// (j) "cold" applications: command, option, argument and environment-variable names no application of this process
+	// has used before, declared for the first time while other goroutines declare theirs (whatever the library
+	// memoises per name is filled concurrently)
+	cold := func(g, n int) (*drive.App, []string, *Prog) {
+		tag := fmt.Sprintf("%dx%dx%d", c.Index, g, n)
+		o := &OptDecl{Names: []string{"opt-" + tag}}
+		x := &ArgDecl{Name: "ARG_" + strings.ToUpper(tag), Multi: true}
+		kp := &Prog{Opts: []*OptDecl{o}, Args: []*ArgDecl{x}}
+		root := &drive.Cmd{Aliases: []string{"app"}, Prog: &Prog{}}
+		kid := &drive.Cmd{ID: 1, Aliases: []string{"cmd-" + tag}, Prog: kp, Parent: root, Action: drive.Beh{Kind: drive.BehReturn}, Before: drive.Beh{Kind: drive.BehReturn}}
+		root.Kids = []*drive.Cmd{kid}
+		return &drive.App{Root: root, Shared: true}, []string{"cmd-" + tag, "--opt-" + tag + "=v" + tag, "w" + tag}, kp
+	}
+	coldKey := func(o *drive.Obs, kp *Prog) string {
+		return fmt.Sprintf("%s err=%v pan=%v %s", o.EventStr(), o.Err, o.Pan, bindStr(kp, o.Bind[1]))
+	}
+	type coldRun struct {
+		g, n int
+		key  string
+	}
+	var colds []coldRun
 	perG := 150
 	seeds := make([]int64, c20Goroutines)
 	for g := range seeds {
@@ -274,6 +390,13 @@ func runC20(c *core.Ctx) {
 			defer wg.Done()
 			rr := rand.New(rand.NewSource(seeds[g]))
 			for n := 0; n < perG; n++ {
+				if n%10 == 3 {
+					app, argv, kp := cold(g, n)
+					key := coldKey(drive.Run(app, argv), kp)
+					mu.Lock()
+					colds = append(colds, coldRun{g, n, key})
+					mu.Unlock()
+				}
 				pr := pool[rr.Intn(len(pool))]
 				cur := atomic.AddInt64(&inflight, 1)
 				for {
@@ -305,6 +428,17 @@ func runC20(c *core.Ctx) {
 	c.Max("max_in_flight", int(maxInflight))
 	for i := int64(0); i < overlapped; i++ {
 		c.Nontrivial(fmt.Sprintf("%d/%d", c.Index, i))
+	}
+	for _, cr := range colds {
+		app, argv, kp := cold(cr.g, cr.n)
+		solo := coldKey(drive.Run(app, argv), kp)
+		c.Eval()
+		want := fmt.Sprintf("B1,ACT1,RET err=<nil> pan=<nil> %s=%q %s=%q", kp.Opts[0].Dashed()[0], []string{argv[1][strings.Index(argv[1], "=")+1:]}, kp.Args[0].Name, []string{argv[2]})
+		if cr.key != solo || solo != want {
+			c.Violation("an application with names new to the process, declared while others were being declared, differs from its solo outcome", map[string]interface{}{"argv": argv, "concurrent": cr.key, "solo": solo, "expected": want}, nil)
+			return
+		}
+		c.Inc("cold_name_applications_equal")
 	}
 	if len(diffs) > 0 {
 		c.Violation(fmt.Sprintf("%d concurrent runs differ from the solo outcome of the same application", len(diffs)), diffs[0], nil)
